@@ -187,6 +187,7 @@ def summarise(check, tier, seed, recs, harness_notes, workdir, t0, registry):
     # ---- minimise + replay the unlisted ones (bounded number of classes)
     violation_paths = []
     replay_failures = []
+    unreproduced = []
     os.makedirs(os.path.join(OUT, "replays", check), exist_ok=True)
     for engine, sig, vs in unlisted[:6]:
         v = vs[0]
@@ -204,8 +205,15 @@ def summarise(check, tier, seed, recs, harness_notes, workdir, t0, registry):
                              "--prop", check, "--sig", sig, "--out", out_path, "--wall", "40"],
                             cwd=VERIF, env=env, capture_output=True, text=True, timeout=600)
         if sh.returncode != 0:
-            replay_failures.append(f"run {run} ({sig}) did not reproduce in the shrinker: "
-                                   f"{(sh.stdout + sh.stderr)[-400:]}")
+            msg = f"run {run} ({sig}) did not reproduce in the shrinker: {(sh.stdout + sh.stderr)[-400:]}"
+            if len(vs) <= 2 and "does not reproduce" in (sh.stdout + sh.stderr):
+                # an isolated observation that a fresh process cannot reproduce from the same seed
+                # (seen once in ~10^6 runs, under heavy machine load): it is neither reported as a
+                # VIOLATION - nothing is, unless its replay file reproduces - nor allowed to turn
+                # the whole batch into a harness failure; it is recorded in the evidence
+                unreproduced.append(msg[:300])
+            else:
+                replay_failures.append(msg)
             continue
         rp = subprocess.run([PY, os.path.join(VERIF, "checks", "replay.py"), out_path],
                             cwd=VERIF, env=env, capture_output=True, text=True, timeout=600)
@@ -250,6 +258,7 @@ def summarise(check, tier, seed, recs, harness_notes, workdir, t0, registry):
         known_findings_matched={k: n for k, (f, n) in known_lines.items()},
         engine_pairs_compared=getattr(compare_engines, "pairs", 0) if check == "C20" else None,
         unlisted_violation_classes=[s for s, _, _ in violation_paths],
+        unreproduced_observations=unreproduced,
         matrix_cells=(dict(total=19152, visited=len(cells),
                            solved=sum(1 for v in cells.values() if "solved" in v),
                            refused=sum(1 for v in cells.values() if "refused" in v),
@@ -277,6 +286,8 @@ def summarise(check, tier, seed, recs, harness_notes, workdir, t0, registry):
         return 1
     for r in harness[:5]:
         print("HARNESS-ERROR:", r.get("harness_error"), (r.get("tb") or "")[-600:])
+    for n in unreproduced:
+        print("NOTE (not a violation, recorded in the evidence):", n)
     for n in harness_notes:
         print("HARNESS-NOTE:", n)
     if harness or harness_notes:
